@@ -125,6 +125,14 @@ pub(crate) struct Stack {
     stack: Vec<JsValue>,
 }
 
+#[cfg(boa_verif)]
+impl Stack {
+    /// Number of values on the stack.
+    pub(crate) fn verif_len(&self) -> usize {
+        self.stack.len()
+    }
+}
+
 impl Stack {
     /// Creates a new stack with the given capacity.
     fn new(capacity: usize) -> Self {
